@@ -33,6 +33,7 @@ type Options struct {
 // ErrRec is one expected element of the error list.
 type ErrRec struct {
 	Msg      string // full text: [file:]line:col (off)[: rule NAME]: inner
+	AltMsg   string // same with the display name unquoted (both spellings are accepted)
 	InnerMsg string
 	Off      int
 	Rule     string // rule name (display name when given), "" for none
@@ -73,6 +74,7 @@ type Stats struct {
 	ICUnsafe         int  // ignore-case class decisions on which pigeon's lowering differs from the definition (D12)
 	FFFDAtEOF        int  // literal containing U+FFFD attempted at end of input
 	StaleCtxEvents   int
+	LabelReeval      int // a labelled expression evaluated again at an offset where it was evaluated before
 }
 
 // Result of a reference evaluation.
@@ -141,6 +143,7 @@ type interp struct {
 	failSet  map[string]bool
 	budget   int
 	seen     map[[2]int]bool
+	labelSeen map[[2]int]bool
 	adv      map[int]bool
 	depth    int
 
@@ -329,13 +332,16 @@ func (it *interp) finish(res *Result, ok bool, end int, v any) {
 	res.Stats = it.st
 }
 
+// curRuleName is the rule shown in error prefixes: the innermost dynamically enclosing
+// rule, by display name when it has one. The display name is shown as spelled in the
+// grammar (quoted); the unquoted form is accepted as well (AltMsg).
 func (it *interp) curRuleName() string {
 	if len(it.rstack) == 0 {
 		return ""
 	}
 	r := it.rstack[len(it.rstack)-1]
 	if r.Display != "" {
-		return r.Display
+		return "\x00" + r.Display
 	}
 	return r.Name
 }
@@ -346,10 +352,17 @@ func (it *interp) addErr(inner string, p Pos, rule string, injected bool, kind s
 		b.WriteString(it.opt.Filename + ":")
 	}
 	fmt.Fprintf(&b, "%d:%d (%d)", p.Line, p.Col, p.Off)
-	if rule != "" {
+	alt := b.String()
+	if strings.HasPrefix(rule, "\x00") {
+		d := rule[1:]
+		b.WriteString(": rule " + strconv.Quote(d))
+		alt += ": rule " + d
+		rule = d
+	} else if rule != "" {
 		b.WriteString(": rule " + rule)
+		alt = b.String()
 	}
-	it.errs = append(it.errs, ErrRec{Msg: b.String() + ": " + inner, InnerMsg: inner, Off: p.Off, Rule: rule, Injected: injected, Kind: kind})
+	it.errs = append(it.errs, ErrRec{Msg: b.String() + ": " + inner, AltMsg: alt + ": " + inner, InnerMsg: inner, Off: p.Off, Rule: rule, Injected: injected, Kind: kind})
 }
 
 // advance models the parser moving onto offset o (reading the rune that starts there).
@@ -625,6 +638,13 @@ func (it *interp) eval(e *gspec.Expr, off int, env map[string]any) (any, int, bo
 		}
 		return nil, off, ok
 	case gspec.KLabel:
+		if it.labelSeen == nil {
+			it.labelSeen = map[[2]int]bool{}
+		}
+		if it.labelSeen[[2]int{e.NID, off}] {
+			it.st.LabelReeval++
+		}
+		it.labelSeen[[2]int{e.NID, off}] = true
 		v, end, ok := it.eval(e.Sub[0], off, map[string]any{})
 		if ok {
 			env[e.Name] = v
@@ -894,7 +914,7 @@ func (it *interp) fault(e *gspec.Expr, errPos Pos, panicOff int) {
 		return
 	}
 	for _, f := range it.opt.Plan.Faults {
-		if f.ID != e.ID || f.Nth != n {
+		if f.ID != e.ID || (f.Nth != n && f.Nth != 0) {
 			continue
 		}
 		it.st.FaultsFired++
